@@ -257,8 +257,41 @@ func CaseSeed(seed uint64, shard, i int) uint64 {
 	return splitmix(splitmix(seed) ^ uint64(shard)*0x100000001b3 + uint64(i))
 }
 
+// caseWallLimit is how long one case may take in real time. Cases run for milliseconds in the bubble and for seconds
+// at process level (each child has its own, shorter watchdog); a case still running after this long sits in a loop
+// that passes no scheduling or file-system point, which nothing inside the process can interrupt.
+const caseWallLimit = 200 * time.Second
+
+// stuck is called from a timer goroutine when a case exceeds caseWallLimit: the case is recorded as a hang with the
+// choices made so far, the result is written and the process ends (the looping goroutine cannot be stopped).
+func stuck(chk *Check, c *Case, cfg *Config, res *ShardResult, start time.Time) {
+	v := &Violation{Kind: "hang", Site: "case watchdog", Detail: fmt.Sprintf("the case (class %q) was still running after %v of wall-clock time: a loop that passes no scheduling or file-system point; notes: %v", c.class, caseWallLimit, c.notes)}
+	switch cfg.Mode {
+	case "run":
+		res.Cases++
+		res.ViolCount[v.FP()]++
+		res.Violations = append(res.Violations, Replay{Property: chk.ID, Tier: cfg.Tier, CaseSeed: c.Seed, Kind: v.Kind, Site: v.Site, Detail: v.Detail, Tape: append([]int(nil), c.T.Rec...), Notes: c.notes})
+		res.Recycle = true // the driver continues the job after this case in a fresh process
+	case "replay":
+		res.Cases = 1
+		res.ReplayResult = v
+		fmt.Printf("REPLAY-RESULT kind=%s site=%s detail=%s\n", v.Kind, v.Site, v.Detail)
+	default:
+		os.Exit(3) // minimiser: this candidate hangs; the driver falls back to the unminimised tape
+	}
+	res.WallS = time.Since(start).Seconds()
+	if cfg.Out != "" {
+		j, _ := json.Marshal(res)
+		os.WriteFile(cfg.Out, j, 0644)
+	}
+	os.Exit(0)
+}
+
 func runCase(t *testing.T, chk *Check, tape *simrt.Tape, caseSeed uint64, cfg *Config, res *ShardResult, replaying bool) *Case {
 	c := &Case{T: tape, Seed: caseSeed, tt: t, scratch: cfg.Scratch, res: res, faults: map[string]int64{}, probes: map[string]int64{}, Tier: cfg.Tier, Replaying: replaying}
+	started := time.Now()
+	wd := time.AfterFunc(caseWallLimit, func() { stuck(chk, c, cfg, res, started) })
+	defer wd.Stop()
 	func() {
 		defer func() {
 			if r := recover(); r != nil {
